@@ -165,6 +165,8 @@ impl<'brand, T: PointerLike> UbElement<'brand, T> {
 
             // If the parent has a parent, remove the intermediate link. (This is
             // the "halving" variant of union-bound.)
+            #[cfg(feature = "verif-hooks")]
+            crate::verif::probe(0);
             let grandparent = grandparent.shallow_clone();
             x.inner.borrow_mut(token).data = UbData::EqualTo(grandparent.shallow_clone());
             x = grandparent;
@@ -233,6 +235,8 @@ impl<'brand, T: PointerLike> UbElement<'brand, T> {
                     Ok(()) => Ok(()),
                     Err(e) => {
                         // In case of error, put the old data back.
+                        #[cfg(feature = "verif-hooks")]
+                        crate::verif::probe(1);
                         y_root.inner.borrow_mut(&mut with_token.token).data = old_y_data;
                         Err(e)
                     }
